@@ -11,7 +11,8 @@ outside the model).  `Pos m s` = channel widths positive, LUT flow rate / viscos
 * `routes_agree`               global-viscosity route = per-event route
 * `emod_linear_in_eta_Q`       E ∝ η·Q
 * `emod_joint_rescale`         L→λL, x→λᵏx, px→λpx, Q→λ³Q leaves E unchanged
-* `pointwise_A/B`, `batch_append_*`, `batch_perm_*`, `history_independent`
+* `pointwise_A/B`, `batch_append_*`, `batch_perm_*`, `history_current`, `history_independent`,
+  `call_after_rewrite`, `call_after_reregister`, `stale_cache_witness`
                                the value of an event depends on that event only
 * `nodes_exact`                at a LUT node the value is the node's scaled E
 * `none_iff_outside`, `emod_none_iff_outside_lut`   NaN exactly outside the triangles of `T`
@@ -253,19 +254,103 @@ theorem batch_perm_B (m : Meta) (lut : LUT) (T : List Tri) (δ : Rat → Rat →
   rw [this, this, List.map_map, List.map_map]
   exact hp.map _
 
-/-- a call never changes the registry and returns what a first call would return: results do
+/-- one operation as the code performs it = the specification's answer and effect -/
+theorem step_refines (env : Env) (op : Op) : stepOp env op = (applyOp env op, answer env op) := by
+  cases op with
+  | write p e => rfl
+  | register id p =>
+    simp only [stepOp, applyOp, answer]
+    cases h1 : (List.lookup id env.reg).isSome <;>
+      cases h2 : (List.lookup id env.internal).isSome <;> simp
+  | deregister id => rfl
+  | call c =>
+    simp only [stepOp, applyOp, answer, evalCall, evalEntry]
+    cases h : loadLut env c.ref with
+    | none => rfl
+    | some e => cases c.global <;> rfl
+
+/-- **histories**: over any interleaving of file rewrites, registrations, de-registrations and
+calls, every call returns `evalCall` of the environment *as it is at that moment* – the table
+currently on disk / currently registered – whatever was loaded by earlier calls -/
+theorem history_current (env : Env) (ops : List Op) :
+    runOps env ops = (ops.foldl applyOp env, specOps env ops) := by
+  induction ops generalizing env with
+  | nil => rfl
+  | cons op ops ih =>
+    simp only [runOps, step_refines, ih, List.foldl_cons, specOps]
+
+/-- calls never change the environment … -/
+theorem call_keeps_env (env : Env) (c : Call) : (stepOp env (.call c)).1 = env := by
+  rw [step_refines]; rfl
+
+/-- … so a history of calls returns what each call would return as the first one: results do
 not depend on earlier calls or on the call order -/
-theorem history_independent (reg : Registry) (calls : List Call) :
-    runCalls reg calls = (reg, calls.map (evalCall reg)) := by
+theorem history_independent (env : Env) (calls : List Call) :
+    runOps env (calls.map .call) = (env, calls.map (evalCall env)) := by
+  rw [history_current]
   induction calls with
   | nil => rfl
   | cons c cs ih =>
-    have hs : stepCall reg c = (reg, evalCall reg c) := by
-      unfold stepCall evalCall
-      cases loadLut reg c.ref with
-      | none => rfl
-      | some e => cases c.global <;> rfl
-    simp only [runCalls, hs, ih, List.map_cons]
+    simp only [List.map_cons, List.foldl_cons, specOps, applyOp, answer] at ih ⊢
+    rw [Prod.mk.injEq] at ih ⊢
+    exact ⟨ih.1, by rw [ih.2]⟩
+
+/-- after a file is rewritten, a call by that path evaluates the new content, whatever
+happened before -/
+theorem call_after_rewrite (env : Env) (pre : List Op) (p : Nat) (e : Entry) (c : Call)
+    (hc : c.ref = .path p) :
+    (runOps env (pre ++ [.write p e, .call c])).2.getLast? = some (.res (evalEntry e c)) := by
+  rw [history_current]
+  simp only
+  have hs : ∀ (env : Env) (pre : List Op), specOps env (pre ++ [.write p e, .call c])
+      = specOps env pre ++ [.ok, .res (evalEntry e c)] := by
+    intro env pre
+    induction pre generalizing env with
+    | nil =>
+      simp only [List.nil_append, specOps, answer, evalCall, hc, loadLut, applyOp,
+        List.lookup_cons_self]
+    | cons o os ih => simp only [List.cons_append, specOps, ih]
+  rw [hs]
+  simp
+
+/-- after an identifier is de-registered and registered again for another file, a call by
+that identifier evaluates the file it is registered for *now* -/
+theorem call_after_reregister (env : Env) (id p : Nat) (e : Entry) (c : Call)
+    (hc : c.ref = .named id) (hint : env.internal.lookup id = none)
+    (hf : env.files.lookup p = some e) :
+    (runOps env [.deregister id, .register id p, .call c]).2
+      = [.ok, .ok, .res (evalEntry e c)] := by
+  rw [history_current]
+  have hno : (List.filter (fun x => x.1 != id) env.reg).lookup id = none := by
+    induction env.reg with
+    | nil => rfl
+    | cons x xs ih =>
+      simp only [List.filter_cons]
+      split
+      · rename_i hx
+        rw [List.lookup_cons]
+        have : (id == x.1) = false := by
+          simp only [bne_iff_ne, ne_eq] at hx
+          simp only [beq_eq_false_iff_ne, ne_eq]
+          exact fun h => hx h.symm
+        rw [this]; exact ih
+      · exact ih
+  simp only [specOps, answer, applyOp, hno, hint, Option.isSome_none, Bool.or_self,
+    Bool.false_eq_true, if_false, evalCall, hc, loadLut, List.lookup_cons_self, Option.bind_some,
+    hf]
+
+/-- **witness**: a loader that memoises parsed tables by path and never invalidates violates
+`history_current` – after the file is rewritten it still interpolates the old table -/
+theorem stale_cache_witness :
+    let e₁ : Entry := ⟨exLut, exMeta, exT⟩
+    let e₂ : Entry := ⟨exLut.map (scaleVal 3), exMeta, exT⟩
+    let c : Call := ⟨.path 7, fun _ _ => 0, { exSetup with px := 0 }, some 5, [(9/2, 3/2, 5)]⟩
+    let env : Env := ⟨[], [], []⟩
+    let ops := [Op.write 7 e₁, .call c, .write 7 e₂, .call c]
+    (runOps env ops).2.map Out.toList = [none, some [some (160/81)], none, some [some (160/27)]] ∧
+    (runOpsCached (env, []) ops).map Out.toList
+      = [none, some [some (160/81)], none, some [some (160/81)]] := by
+  decide +kernel
 
 /-! ## 7. nodes -/
 
